@@ -173,6 +173,37 @@ func pickK(r *sim.Rng, L int) int {
 	return r.Intn(L + 1)
 }
 
+// altOut picks a redirected output path: another name in the package directory
+// (also one that the go tool leaves out of the package: another GOOS, a leading
+// underscore), an existing sub-directory (the layout of the repository's own
+// ref/generated use case), or a directory outside the module. The old content
+// there is then not among the files the package loader ever sees - and still
+// has to be ignored.
+func altOut(r *sim.Rng, world *sim.WorldSpec) string {
+	setup := "{W}/" + world.Setup
+	names := []string{"zz_generated.go", "conv_gen.go", "logo.go", "conv_windows.go", "_conv.go"}
+	if _, ok := world.Files[filepath.Dir(world.Setup)+"/sub/keep.txt"]; ok {
+		// only where the sub-directory exists in the world (and so in the twin's)
+		names = append(names, "sub/out.gen.go", "sub/generated.go")
+	}
+	if r.Chance(1, 4) {
+		return "{W}/outside/out.gen.go"
+	}
+	return filepath.Dir(setup) + "/" + sim.Pick(r, names)
+}
+
+// tplInv is the invocation of a template case: the default output for two
+// cases in three, a redirected one (altOut) for the third.
+func tplInv(cfg Config, world *sim.WorldSpec, wi, t int, label string) Invocation {
+	iv := SetupInv(world)
+	r := sim.Derive(cfg.Seed, "C12", label+"-out", wi, t)
+	if r.Chance(1, 3) {
+		iv.OutArg = altOut(r, world)
+		iv.OutPath = ResolveOut(iv.Cwd, iv.Input, "", iv.OutArg)
+	}
+	return iv
+}
+
 func genC12(cfg Config, ws *WorldSet, i int) C12Case {
 	wi := i % len(ws.Worlds)
 	world := ws.Worlds[wi]
@@ -187,14 +218,8 @@ func genC12(cfg Config, ws *WorldSet, i int) C12Case {
 	// one history in eight redirects its output with -out (same directory, another name);
 	// the whole history then lives at that path
 	outArg := ""
-	if r.Chance(1, 8) {
-		// ... or in an existing sub-directory (the layout of the repository's own ref/generated use case)
-		names := []string{"zz_generated.go", "conv_gen.go", "logo.go"}
-		if _, ok := world.Files[filepath.Dir(world.Setup)+"/sub/keep.txt"]; ok {
-			// only where the sub-directory exists in the world (and so in the twin's)
-			names = append(names, "sub/out.gen.go", "sub/generated.go")
-		}
-		outArg = filepath.Dir(setup) + "/" + sim.Pick(r, names)
+	if r.Chance(1, 5) {
+		outArg = altOut(r, world)
 	}
 	mkInv := func() *Invocation {
 		form := sim.Pick(r, []string{"rel-pkgdir", "rel-pkgdir", "rel-pkgdir", "rel-modroot", "gofile", "abs"})
@@ -242,7 +267,7 @@ func genC12(cfg Config, ws *WorldSet, i int) C12Case {
 			}
 		case 3, 4:
 			// a run killed inside its final write
-			kind := sim.Pick(r, []string{"crash_mid", "crash_mid", "crash_mid", "crash_after_open", "crash_before_close", "crash_before_open", "commit:crash_before", "commit:crash_after"})
+			kind := sim.Pick(r, []string{"crash_mid", "crash_mid", "crash_mid", "crash_after_open", "crash_before_close", "crash_before_open", "commit:crash_before", "commit:crash_after", "sigint", "sigterm"})
 			iv := mkInv()
 			iv.Dry = false
 			steps = append(steps, crashStep(r, iv, kind, pickK(r, L), sim.Pick(r, []string{"as-written", "as-written", "zero-filled-tail", "cut-to-4096", "write-lost"})))
@@ -287,10 +312,14 @@ func crashStep(r *sim.Rng, iv *Invocation, kind string, k int, durability string
 	if kind == "crash_before_close" {
 		f.K = -1
 	}
+	if strings.HasPrefix(kind, "sig") {
+		// interrupted by a signal it may catch, with everything ready to be written
+		durability = "as-written"
+	}
 	return Step{Op: "crashrun", Inv: iv, Bin: "sim", Plan: &sim.Plan{Markers: genMarkers(r, 4), Faults: []sim.Fault{f}}, Note: durability}
 }
 
-var c12CrashKinds = []string{"crash_before_open", "crash_after_open", "crash_mid", "crash_before_close", "commit:crash_before", "commit:crash_after"}
+var c12CrashKinds = []string{"crash_before_open", "crash_after_open", "crash_mid", "crash_before_close", "commit:crash_before", "commit:crash_after", "sigint"}
 
 // genC12Recovery: the crash-recovery templates, systematically for every crash
 // kind: [crash, run] and [edit to a longer setup, crash, edit back to the shorter
@@ -299,7 +328,7 @@ var c12CrashKinds = []string{"crash_before_open", "crash_after_open", "crash_mid
 func genC12Recovery(cfg Config, ws *WorldSet, wi, t int) C12Case {
 	world := ws.Worlds[wi]
 	r := sim.Derive(cfg.Seed, "C12", "recovery", wi, t)
-	iv := SetupInv(world)
+	iv := tplInv(cfg, world, wi, t, "recovery")
 	kind := c12CrashKinds[t%len(c12CrashKinds)]
 	L := len(ws.Canon[wi].Out)
 	k := L / 2
@@ -325,9 +354,9 @@ func genC12Recovery(cfg Config, ws *WorldSet, wi, t int) C12Case {
 
 // genC12Edit: the edit templates, systematically for every variant of the setup
 // file: [run, edit to v, run] and [run, edit to v, run, edit back, run].
-func genC12Edit(ws *WorldSet, wi, t int) C12Case {
+func genC12Edit(cfg Config, ws *WorldSet, wi, t int) C12Case {
 	world := ws.Worlds[wi]
-	iv := SetupInv(world)
+	iv := tplInv(cfg, world, wi, t, "edit")
 	setup := "{W}/" + world.Setup
 	nv := len(world.Variants)
 	v := t % nv
@@ -724,7 +753,7 @@ func runC12(cfg Config, args []string) int {
 				return genC12Recovery(cfg, ws, rec[i-len(enum)].wi, rec[i-len(enum)].t)
 			}
 			if i < len(enum)+len(rec)+len(edits) {
-				return genC12Edit(ws, edits[i-len(enum)-len(rec)].wi, edits[i-len(enum)-len(rec)].t)
+				return genC12Edit(cfg, ws, edits[i-len(enum)-len(rec)].wi, edits[i-len(enum)-len(rec)].t)
 			}
 			return genC12(cfg, ws, i-len(enum)-len(rec)-len(edits))
 		},
